@@ -6,9 +6,9 @@ Vocabulary
 ----------
 label      integer naming one task (allocated in creation order by the op interpreter)
 kind       'P' plain, no static input           f(*args)
-           'S' plain, one static input 's<label>'
+           'S' plain, two static inputs 's<label>', 'r<label>'
            'C' context-first, no static input   f(context, *args)
-           'D' context-first, one static input
+           'D' context-first, two static inputs
 op         ("add", kind, form, preds)      wb.add_task(T, preds)    form: none | one | list
            ("rep", label, kind)            wb.replace_task(old, fresh task of `kind`)
            ("ins", wname, form, preds)     wb.insert_workflow(menu workflow, preds)
@@ -40,6 +40,11 @@ MENU = {
     "chain": [("S", ()), ("C", (0,))],               # 1 input, 1 output
     "par": [("P", ()), ("C", ())],                   # 2 inputs, 2 outputs, no edge
 }
+
+
+def static_of(label, kind):
+    """Static inputs of a fresh task: two distinguishable values for the static kinds."""
+    return ("s%d" % label, "r%d" % label) if kind in STATIC_KINDS else ()
 
 
 class Refused(Exception):
@@ -83,7 +88,7 @@ class Model:
     def _new(self, label, kind):
         self.order.append(label)
         self.kind[label] = kind
-        self.static[label] = ("s%d" % label,) if kind in STATIC_KINDS else ()
+        self.static[label] = static_of(label, kind)
 
     def add(self, label, kind, preds):
         self._new(label, kind)
@@ -104,7 +109,7 @@ class Model:
         self.edges = {(new if u == old else u, new if v == old else v) for (u, v) in self.edges}
 
     def rep(self, old, new, kind):
-        self._replace(old, new, kind, ("s%d" % new,) if kind in STATIC_KINDS else ())
+        self._replace(old, new, kind, static_of(new, kind))
 
     def compose(self, labels, wname):
         spec = MENU[wname]
@@ -312,7 +317,7 @@ class Env:
                 env.log.append((label, targs))
                 return (label, targs)
         self.fn2lab[fn] = label
-        static = ("s%d" % label,) if kind in STATIC_KINDS else ()
+        static = static_of(label, kind)
         # names deliberately collide (pharmpy workflows contain many tasks called e.g. "run")
         return Task("n" + kind, fn, *static)
 
